@@ -9,6 +9,7 @@ from hypothesis import strategies as st
 from ..runner import Outcome
 from ..doc import Doc
 from .. import eqv
+from ..wchoice import weighted
 
 ID = 'C28'
 LEVEL = 'exploration'
@@ -55,13 +56,9 @@ ON_MANY = ['first', 'none', 'all']
 def strategy(tier):
   sel = st.integers(0, 7)
   row = st.fixed_dictionaries({c: sel for c, _ in COLS})
-  rows = st.one_of(st.lists(row, min_size=3, max_size=7), st.lists(row, min_size=3, max_size=7),
-                   st.lists(row, min_size=3, max_size=7), st.lists(row, min_size=0, max_size=2))
-  req_cols = st.one_of(
-    st.lists(st.sampled_from(['A', 'B', 'R']), min_size=1, max_size=3, unique=True),
-    st.lists(st.sampled_from(['A', 'B', 'R']), min_size=1, max_size=2, unique=True),
-    st.lists(st.sampled_from(['A', 'B', 'R']), min_size=1, max_size=2, unique=True),
-    st.lists(st.sampled_from(['A', 'B', 'R', 'id', 'CL']), min_size=0, max_size=3, unique=True))
+  rows = weighted((4, st.lists(row, min_size=3, max_size=7)), (1, st.lists(row, min_size=0, max_size=2)))
+  req_cols = weighted((3, st.lists(st.sampled_from(['A', 'B', 'R']), min_size=1, max_size=3, unique=True)),
+                      (1, st.lists(st.sampled_from(['A', 'B', 'R', 'id', 'CL']), min_size=0, max_size=3, unique=True)))
   val_cols = st.lists(st.sampled_from(['A', 'B', 'R', 'CL', 'C', 'C', 'D']), min_size=0, max_size=3, unique=True)
   # '~' = key absent (default behaviour)
   options = st.fixed_dictionaries({
@@ -75,11 +72,11 @@ def strategy(tier):
     # rows repeated with another payload: records that agree on every require column
     'dup': st.lists(st.integers(0, 6), min_size=0, max_size=3),
     'rows': rows, 'form': st.sampled_from(['bulk', 'single', 'bulk']), 'req_cols': req_cols, 'val_cols': val_cols,
-    'inputs': st.one_of(*([st.lists(inp, min_size=1, max_size=4)] * 7 + [st.just([])])), 'options': options,
+    'inputs': weighted((9, st.lists(inp, min_size=1, max_size=4)), (1, st.just([]))), 'options': options,
     # index of a value list to cut short (mismatched lengths); mostly absent
-    'cut': st.one_of(st.none(), st.none(), st.none(), st.none(), st.none(), st.none(), st.integers(0, 5)),
+    'cut': weighted((5, st.none()), (1, st.integers(0, 5))),
     # conversion class switch: require values are sent in a representation that needs conversion
-    'conv': st.sampled_from([False, False, False, False, True]),
+    'conv': st.sampled_from([False, False, False, True]),
     # aim require values at existing rows (more matches) instead of independent pool draws
     'aim': st.sampled_from([True, True, False]),
   })
@@ -223,6 +220,7 @@ def reference(rows, require, col_values, options, labels):
         rec.update({c: convert(c, require[c][i]) for c in require})
         rec.update({c: convert(c, col_values[c][i]) for c in col_values})
         per_row.append(('add', rec))
+        labels.add('input-row:added')
       else:
         labels.add('no-match:add-disabled')
         per_row.append(('none', []))
@@ -237,6 +235,7 @@ def reference(rows, require, col_values, options, labels):
       elif len(matches) > 1:
         labels.add('on_many:all-of-several')
       per_row.append(('update', matches))
+      labels.add('input-row:updated')
     else:
       labels.add('match:update-disabled')
       per_row.append(('none', []))
